@@ -49,8 +49,8 @@ Inductive label := Unl | Pub | Pro.
 
 Inductive element :=
 | EComp (c : clause)
-| EExt (path : list string) (m : option (list arg))
-| EImp (i : import)
+| EExt (path : list string) (m : option (list arg)) (ann : bool)   (* ann: followed by annotation(...) with >= 1 argument *)
+| EImp (i : import) (ann : bool)                                   (* description strings have no effect on the tree *)
 | ECls (ctype name comment : string) (secs : list (label * list element))
        (eqs algs : list (bool * list expr)).   (* (initial?, equations) per section, source order *)
 
@@ -249,11 +249,11 @@ Inductive ores := RSyms (ss : list osym) | RExt (e : oext) | ROther.    (* self.
 
 (* extends clause with arguments: enterElement_modification 666-673 creates a Symbol and bumps sym_count
    when symbol_node is None; nothing resets symbol_node until the next component declaration ends *)
-Definition ext_count (m : option (list arg)) (l : lst) : lst :=
-  match m with
-  | Some (_ :: _) => if l_symset l then l else mkL (S (l_count l)) true (l_next l) (l_trace l)
-  | _ => l
-  end.
+Definition bump (b : bool) (l : lst) : lst :=
+  if b then (if l_symset l then l else mkL (S (l_count l)) true (l_next l) (l_trace l)) else l.
+Definition has_args (m : option (list arg)) : bool := match m with Some (_ :: _) => true | _ => false end.
+(* the same happens for the arguments of an annotation that follows an extends or import clause *)
+Definition ext_count (m : option (list arg)) (ann : bool) (l : lst) : lst := bump (has_args m || ann) l.
 
 Definition vis_of_label (lb : label) : vis := match lb with Unl => Private | Pub => Public | Pro => Protected end.
 Definition set_vis_res (v : vis) (r : ores) : ores :=
@@ -312,12 +312,12 @@ Fixpoint do_element (v : variant) (path : list string) (e : element) (st : cstat
       | Err x => Err x
       | Ok (ss, (seen', l')) => Ok ((RSyms ss, []), (mkK seen' (k_imports k) (k_classes k), l'))
       end
-  | EExt p m =>                                                        (* 577-590 *)
-      Ok ((RExt (mkE p Private (conv_args m)), []), (k, ext_count m l))
-  | EImp i =>
+  | EExt p m ann =>                                                    (* 577-590 *)
+      Ok ((RExt (mkE p Private (conv_args m)), []), (k, ext_count m ann l))
+  | EImp i ann =>
       match add_import v i (k_imports k) with
       | Err x => Err x
-      | Ok im => Ok ((ROther, []), (mkK (k_seen k) im (k_classes k), l))
+      | Ok im => Ok ((ROther, []), (mkK (k_seen k) im (k_classes k), bump ann l))
       end
   | ECls ct n cm secs eqs algs =>
       (* enterClass_definition 90-98: a fresh class node is pushed *)
